@@ -224,16 +224,36 @@ type RawSPS struct {
 	Vui                      RawVUI
 }
 
+// cropUnits returns CropUnitX and CropUnitY (H.264 7.4.2.1.1, equations 7-19 to 7-22):
+// 1 and 2-frame_mbs_only_flag when ChromaArrayType is 0 (monochrome or separate
+// colour planes), otherwise SubWidthC and SubHeightC*(2-frame_mbs_only_flag).
+func (sps *RawSPS) cropUnits() (cropUnitX, cropUnitY int) {
+	frameHeightFactor := 2 - int(sps.FrameMbsOnlyFlag)
+	if sps.ChromaFormatIdc == 0 || sps.SeparateColourPlaneFlag == 1 {
+		return 1, frameHeightFactor
+	}
+	subWidthC, subHeightC := 2, 2 // 4:2:0
+	switch sps.ChromaFormatIdc {
+	case 2: // 4:2:2
+		subHeightC = 1
+	case 3: // 4:4:4
+		subWidthC, subHeightC = 1, 1
+	}
+	return subWidthC, subHeightC * frameHeightFactor
+}
+
 // Width 视频宽度（像素）
 func (sps *RawSPS) Width() int {
-	w := (sps.PicWidthInMbsMinus1+1)*16 - sps.FrameCropLeftOffset*2 - sps.FrameCropRightOffset*2
-	return int(w)
+	cropUnitX, _ := sps.cropUnits()
+	return (int(sps.PicWidthInMbsMinus1)+1)*16 -
+		cropUnitX*(int(sps.FrameCropLeftOffset)+int(sps.FrameCropRightOffset))
 }
 
 // Height 视频高度（像素）
 func (sps *RawSPS) Height() int {
-	h := (2-uint16(sps.FrameMbsOnlyFlag))*(sps.PicHeightInMapUnitsMinus1+1)*16 - sps.FrameCropTopOffset*2 - sps.FrameCropBottomOffset*2
-	return int(h)
+	_, cropUnitY := sps.cropUnits()
+	return (2-int(sps.FrameMbsOnlyFlag))*(int(sps.PicHeightInMapUnitsMinus1)+1)*16 -
+		cropUnitY*(int(sps.FrameCropTopOffset)+int(sps.FrameCropBottomOffset))
 }
 
 // FrameRate Video frame rate
